@@ -111,13 +111,20 @@ fn gen_pair(src: &mut Src) -> Pair {
                 prev = name.clone();
                 last = name;
             }
-            let (sug, exp, unc) = if size {
-                (format!("{TARGET} ::= OCTET STRING (SIZE (1..{last}))"), format!("{TARGET} ::= OCTET STRING (SIZE (1..{n}))"), format!("{TARGET} ::= OCTET STRING (SIZE (1..MAX))"))
-            } else {
-                (format!("{TARGET} ::= INTEGER (0..{last})"), format!("{TARGET} ::= INTEGER (0..{n})"), format!("{TARGET} ::= INTEGER (0..MAX)"))
+            // where the reference stands: upper bound of a closed range, or the only finite bound
+            // of a half-open one (`ref..MAX`, `MIN..ref`), or a single value
+            let shape = src.pick(4);
+            let (sug, exp, unc) = match (size, shape) {
+                (true, 0) | (true, 3) => (format!("{TARGET} ::= OCTET STRING (SIZE (1..{last}))"), format!("{TARGET} ::= OCTET STRING (SIZE (1..{n}))"), format!("{TARGET} ::= OCTET STRING (SIZE (1..MAX))")),
+                (true, 1) => (format!("{TARGET} ::= OCTET STRING (SIZE ({last}..MAX))"), format!("{TARGET} ::= OCTET STRING (SIZE ({n}..MAX))"), format!("{TARGET} ::= OCTET STRING")),
+                (true, _) => (format!("{TARGET} ::= SEQUENCE (SIZE ({last}..MAX)) OF BOOLEAN"), format!("{TARGET} ::= SEQUENCE (SIZE ({n}..MAX)) OF BOOLEAN"), format!("{TARGET} ::= SEQUENCE OF BOOLEAN")),
+                (false, 0) => (format!("{TARGET} ::= INTEGER (0..{last})"), format!("{TARGET} ::= INTEGER (0..{n})"), format!("{TARGET} ::= INTEGER (0..MAX)")),
+                (false, 1) => (format!("{TARGET} ::= INTEGER ({last}..MAX)"), format!("{TARGET} ::= INTEGER ({n}..MAX)"), format!("{TARGET} ::= INTEGER")),
+                (false, 2) => (format!("{TARGET} ::= INTEGER (MIN..{last})"), format!("{TARGET} ::= INTEGER (MIN..{n})"), format!("{TARGET} ::= INTEGER")),
+                (false, _) => (format!("{TARGET} ::= SEQUENCE {{ f INTEGER ({last}..MAX), g INTEGER ({last}) }}"), format!("{TARGET} ::= SEQUENCE {{ f INTEGER ({n}..MAX), g INTEGER ({n}) }}"), format!("{TARGET} ::= SEQUENCE {{ f INTEGER, g INTEGER }}")),
             };
             let wrong = if levels >= 2 { vec![("F-valref-chain".to_string(), vec![unc])] } else { vec![] };
-            Pair { kind: format!("value-reference x{levels}"), sugared: arrange(src, helpers, sug), expanded: vec![exp], wrong, header, nontrivial: levels >= 2 }
+            Pair { kind: format!("value-reference x{levels} shape={shape}"), sugared: arrange(src, helpers, sug), expanded: vec![exp], wrong, header, nontrivial: levels >= 2 }
         }
         1 => {
             let n = [1i128, 5, 255, 70000][src.pick(4)];
